@@ -204,6 +204,11 @@ def printed_values(stdout, tag):
 
 # --------------------------------------------------------------------------------------------
 
+def pyf(f):
+    """the undecorated Python function behind a numba dispatcher; a function that is (no longer) jitted is its own Python form"""
+    return getattr(f, "py_func", f)
+
+
 def load_known():
     p = os.path.join(VERIF, "known_findings.json")
     if not os.path.exists(p):
